@@ -260,6 +260,41 @@ def run(ctx):
                     A.bind(np.ones(d), np.ones(d))
                 except ValueError as e:
                     ctx.fail({"op": "valid-usable", "alg": alg, "d": d}, f"valid but bind raises {e}", "usable", where=f"valid-dimensionality-{alg}")
+    # the same questions with the dimensionality given as a NumPy integer (len() of nothing: a shape entry,
+    # an element of np.arange, a vocabulary's `dimensions` computed with NumPy): same answers, same matrices
+    NPK = [("int64", np.int64), ("int32", np.int32), ("intp", np.intp), ("uint16", np.uint16), ("arange", lambda x: np.arange(x, x + 1)[0])]
+    for alg in ("hrr", "vtb", "tvtb"):
+        A = ALGS[alg]
+        for d in range(-3, 140 if ctx.tier == "quick" else 1100):
+            want = d >= 1 and (alg == "hrr" or math.isqrt(d) ** 2 == d)
+            for kname, kf in NPK:
+                if d < 0 and kname == "uint16":
+                    continue
+                nd_ = kf(d)
+                case = {"op": "valid-numpy-int", "alg": alg, "d": d, "kind": kname}
+                ctx.count(f"valid-np {alg} {d} {kname}", branch="valid-dim-numpy-int")
+                try:
+                    got = bool(A.is_valid_dimensionality(nd_))
+                except Exception as e:  # noqa: BLE001
+                    got = f"{type(e).__name__}"
+                if got != want:
+                    ctx.fail(case, got, want, where=f"valid-dimensionality-{alg}")
+                    continue
+                if want and d <= 100:
+                    for mname, call in (("inversion", lambda x: A.get_inversion_matrix(x)),
+                                        ("identity", lambda x: A.identity_element(x, sidedness=ElementSidedness.RIGHT)),
+                                        ("zero", lambda x: A.zero_element(x))):
+                        try:
+                            with warnings.catch_warnings():
+                                warnings.simplefilter("ignore")
+                                a_np, a_py = call(nd_), call(d)
+                            ok = np.array_equal(np.asarray(a_np), np.asarray(a_py))
+                            obs = "differs from the result for the Python int"
+                        except Exception as e:  # noqa: BLE001
+                            ok, obs = False, f"{type(e).__name__}: {e}"[:90]
+                        if not ok:
+                            ctx.fail(dict(case, method=mname), obs, "the same element / matrix as for int(d)",
+                                     where=f"numpy-int-dimensionality-{alg}")
     for d in range(-3, 70):
         if bool(HrrAlgebra().is_valid_dimensionality(d)) != (d > 0):
             ctx.fail({"op": "valid", "alg": "hrr", "d": d}, "wrong", d > 0, where="valid-dimensionality-hrr")
